@@ -8,7 +8,7 @@ from lib import gz, gnat, gbool, gstr, glist
 
 REQ = "From CfdmV Require Import Common.Base C10.Model C10.Fs C10.Ident C10.Run.\nOpen Scope string_scope."
 MODEL_FILES = ["Model", "Fs", "Ident", "Run"]
-BASES = ["ef0", "ef6", "dsgc", "dsgi", "gath", "ef1"]
+BASES = ["ef0", "ef6", "dsgc", "dsgi", "gath", "ef1", "gath2"]
 COPY_VARIANTS = ["copy", "squeeze", "transpose", "insert_dimension", "subspace_all", "subspace_part",
                  "apply_masking", "uncompress", "deepcopy"]
 TOUCH_VARIANTS = ["to_memory", "cons_to_memory", "assign", "array", "text", "equals", "inner_to_memory", "inner_to_memory"]
@@ -16,10 +16,12 @@ EARLY_FAULTS = ["hdf5_chunks", "fmt", "var_attrs", "file_desc"]
 LATE_FAULTS = ["endian", "compress99", "lsd", "datatype"]
 N_HARMLESS = 17
 # ways of spelling a file name (drive/c10.py spell_of)
-VIAS_X = ["direct"] * 4 + ["filelink", "relative", "alias", "alias", "dotdot", "dslash", "scratch", "alias_scratch"]
+VIAS_X = ["direct"] * 4 + ["filelink", "relative", "alias", "alias", "dotdot", "dslash", "scratch", "alias_scratch",
+          "envvar", "envvar-braces"]
 VIAS_Y = ["direct", "direct", "direct", "alias", "scratch"]
 TVIAS = ["direct", "direct", "direct", "filelink", "relative", "alias", "alias", "dotdot", "dslash", "scratch",
-         "alias_scratch"]
+         "alias_scratch", "envvar", "envvar-braces", "tilde"]
+EXPANDED = ["envvar", "envvar-braces", "tilde"]     # names that cfdm has to expand ($VAR, ${VAR}, ~)
 COMPONENT_KINDS = ["interior_ring", "interior_ring", "node_count", "part_node_count", "bounds", "count", "index",
                    "list", "cell_measure", "domain_ancillary", "coordref"]
 TRACKED = ("X", "Y", "Z", "E", "EN", "V", "DV", "W", "LX")
@@ -139,10 +141,19 @@ def g_fs(r):
     return f"(mkFS {spell} {nodes})"
 
 
+def g_rname(given):
+    return glist(given, lambda c: f"(RLit {gz(c[1])})" if c[0] == "lit" else f"(RVar {gz(c[1])})" if c[0] == "var" else "RHome")
+
+
 def g_target(t):
+    """the name as given and the absolute name the harness computed from it"""
     if not isinstance(t["name"], int):
         raise BadName(str(t["name"]))
-    return f"(mkT {gz(t['name'])} {g_path(t['path'])})"
+    return f"({g_rname(t['given'])}, mkT {gz(t['name'])} {g_path(t['path'])})"
+
+
+def g_env(ev):
+    return ("(mkE " + glist(ev["vars"], lambda vp: f"({gz(vp[0])}, {g_path(vp[1])})") + " " + g_path(ev["home"]) + ")")
 
 
 def g_wopts(case, r):
@@ -160,7 +171,7 @@ def literal(case, r):
     err = r["error"][0] if r["error"] else None
     efsel = glist(r["efsel"], lambda t: f"({gnat(t[0])}, {gstr(t[1])}, {glist(t[2], gstr)})")
     ext = "None" if r["ext"] is None else f"(Some {g_target(r['ext'])})"
-    w = (f"({g_fs(r)}, {glist(r['sel'], gnat)}, {efsel}, {g_target(r['target'])}, {g_wopts(case, r)}, {ext}, "
+    w = (f"({g_fs(r)}, {g_env(r['env'])}, {glist(r['sel'], gnat)}, {efsel}, {g_target(r['target'])}, {g_wopts(case, r)}, {ext}, "
          f"{g_effects(r)}, {g_err(err)})")
     return f"({init}, {steps}, {w})"
 
@@ -173,9 +184,20 @@ def g_gobs(rows):
     return glist(rows, lambda row: f"({g_props(row[0])}, {g_props(row[1])}, {g_props(row[2])})")
 
 
+CKIND = {"list": "KList", "count": "KCount", "index": "KIndex", "bounds": "KBounds", "interior_ring": "KRing"}
+
+
+def g_oobs(rows):
+    return glist(rows, lambda kr: "(" + CKIND.get(kr[0], "KOther") + ", " + glist(kr[1], lambda kv: f"({gz(kv[0])}, {gz(kv[1])})") + ")")
+
+
 def ident_literal(case, r):
     reached = r["fault"][0] in ("none", "late") and not (r["error"] and r["fault"][0] == "none")
-    return (f"({glist(r['geo']['before'], g_gobs)}, {glist(r['geo']['after'], g_gobs)}, true, "
+
+    def side(which):
+        return glist(list(zip(r["geo"][which], r["others"][which])), lambda go: f"({g_gobs(go[0])}, {g_oobs(go[1])})")
+
+    return (f"({side('before')}, {side('after')}, {gz(r['kname'])}, true, "
             f"{gbool(r['error'] is not None)}, {gbool(reached and case['write']['mode'] == 'w')})")
 
 
@@ -189,7 +211,8 @@ def rand_transplant(rng, nregs):
 def rand_comp_prop(rng, nregs, i=None):
     return {"op": "comp_prop", "i": rng.randrange(nregs) if i is None else i, "kind": rng.choice(COMPONENT_KINDS),
             "j": rng.randrange(4), "val": rng.randrange(3), "create": rng.random() < 0.3,
-            "which": "ncvar" if rng.random() < 0.25 else "prop", "name": rng.choice(["long_name", "long_name", "comment"])}
+            "which": rng.choice(["ncvar", "ncvar", "ncvar_del"]) if rng.random() < 0.3 else "prop",
+            "name": rng.choice(["long_name", "long_name", "comment"])}
 
 
 def rand_op(rng, nregs, transplant_bias=0.0):
@@ -256,7 +279,7 @@ def rand_target(rng, w):
     elif r < 0.80:
         w["target"], w["tvia"] = "Z", rng.choice([v for v in TVIAS if v != "filelink"])
     elif r < 0.86:
-        w["target"], w["tvia"] = "E", rng.choice(["direct", "alias", "scratch"])
+        w["target"], w["tvia"] = "E", rng.choice(["direct", "alias", "scratch", "envvar", "tilde"])
     elif r < 0.90:
         w["target"], w["tvia"] = "V", "direct"
     elif r < 0.95:
@@ -269,7 +292,8 @@ def rand_target(rng, w):
 def rand_external(rng):
     r = rng.random()
     key = "E" if r < 0.5 else "EN" if r < 0.7 else "X" if r < 0.85 else "Y" if r < 0.95 else "Z"
-    return {"key": key, "via": rng.choice(["direct", "direct", "alias", "dotdot", "dslash", "scratch", "alias_scratch"])}
+    return {"key": key, "via": rng.choice(["direct", "direct", "alias", "dotdot", "dslash", "scratch", "alias_scratch",
+                                            "envvar", "envvar-braces", "tilde"])}
 
 
 def rand_write(rng, nregs, last_written=None, p_ext=0.08):
@@ -379,6 +403,40 @@ CORPUS = [
     {"bases": ["ef0", "dsgc"], "read_via": "direct", "read_via_y": "alias", "fam": "corpus-append", "ops": [],
      "write": W([1], "Y", "scratch", mode="a")},
     {"bases": ["ef1", "ef0"], "read_via": "direct", "fam": "corpus-append", "ops": [], "write": W([0], "X", "filelink", mode="r+")},
+    # ---- second deepening round ---------------------------------------------------------
+    # the list variable of a gathered field has no netCDF name (read from file, brought into memory)
+    {"bases": ["gath", "ef0"], "read_via": "direct", "fam": "corpus-gathered",
+     "ops": [{"op": "comp_prop", "i": 0, "kind": "list", "j": 0, "which": "ncvar_del"}], "write": W([0], "Z")},
+    {"bases": ["gath", "ef0"], "read_via": "direct", "fam": "corpus-gathered",
+     "ops": [{"op": "touch", "i": 0, "variant": "to_memory"},
+             {"op": "comp_prop", "i": 0, "kind": "list", "j": 0, "which": "ncvar_del"},
+             {"op": "copy", "i": 0, "variant": "copy"}], "write": W([2], "Y")},
+    # two gathered fields with different list variables of the same name, written together
+    {"bases": ["gath", "gath2"], "read_via": "direct", "fam": "corpus-gathered",
+     "ops": [{"op": "comp_prop", "i": 0, "kind": "list", "j": 0, "which": "ncvar", "val": 0},
+             {"op": "comp_prop", "i": 1, "kind": "list", "j": 0, "which": "ncvar", "val": 0}],
+     "write": dict(W([0, 1], "Z"), as_list=True)},
+    {"bases": ["gath2", "gath"], "read_via": "alias", "fam": "corpus-gathered",
+     "ops": [{"op": "comp_prop", "i": 1, "kind": "list", "j": 0, "which": "ncvar", "val": 1},
+             {"op": "comp_prop", "i": 0, "kind": "list", "j": 0, "which": "ncvar", "val": 1},
+             {"op": "touch", "i": 1, "variant": "to_memory"}],
+     "write": dict(W([1, 0], "Z", "alias"), as_list=True)},
+    # names that have to be expanded: overwrite disabled on an existing file ...
+    {"bases": ["ef0", "ef1"], "read_via": "direct", "fam": "corpus-expansion", "ops": [],
+     "write": W([1], "X", "envvar", overwrite=False)},
+    {"bases": ["ef0", "ef1"], "read_via": "direct", "fam": "corpus-expansion", "ops": [],
+     "write": W([0], "Y", "envvar-braces", overwrite=False)},
+    {"bases": ["ef0", "gath"], "read_via": "direct", "fam": "corpus-expansion", "ops": [],
+     "write": W([1], "E", "tilde", overwrite=False)},
+    {"bases": ["ef0", "ef1"], "read_via": "direct", "fam": "corpus-expansion",
+     "ops": [{"op": "make_external", "i": 1, "j": 0, "val": 1}],
+     "write": W([1], "Z", "tilde", overwrite=False, external={"key": "E", "via": "envvar"})},
+    # ... the file that the data are in, named with a variable; read through one, written plainly; append
+    {"bases": ["ef0", "ef1"], "read_via": "direct", "fam": "corpus-expansion",
+     "ops": [{"op": "copy", "i": 0, "variant": "copy"}], "write": W([2], "X", "envvar")},
+    {"bases": ["dsgc", "ef1"], "read_via": "envvar-braces", "fam": "corpus-expansion", "ops": [], "write": W([0], "X", "tilde")},
+    {"bases": ["ef0", "ef6"], "read_via": "envvar", "read_via_y": "direct", "fam": "corpus-expansion", "ops": [],
+     "write": W([0], "X", "envvar-braces", mode="a")},
 ]
 
 
@@ -504,6 +562,50 @@ def gen_cases(rng, tier):
             if rng.random() < 0.8:
                 w["target"], w["tvia"] = rng.choice([("Z", "direct"), ("Z", "alias"), ("Y" if reg == 0 else "X", "direct")])
         add(bp, ops, w, "asymmetric", via="direct")
+    # (g) gathered fields: the list variable without a netCDF name, or two different list variables
+    #     of one name in fields written together; read from file or brought into memory
+    for _ in range(150 * k):
+        b = [rng.choice(["gath", "gath2"]), rng.choice(["gath", "gath2", "gath2", "ef0"])]
+        ops, n = [], 2
+        name = rng.randrange(3)
+        for reg in (0, 1):
+            r = rng.random()
+            if r < 0.4:
+                ops.append({"op": "comp_prop", "i": reg, "kind": "list", "j": 0, "which": "ncvar_del"})
+            elif r < 0.8:
+                ops.append({"op": "comp_prop", "i": reg, "kind": "list", "j": 0, "which": "ncvar", "val": name})
+            if rng.random() < 0.3:
+                ops.append({"op": "touch", "i": reg, "variant": rng.choice(["to_memory", "inner_to_memory"])})
+        regs = [0, 1] if rng.random() < 0.5 else [rng.choice([0, 1])]
+        if rng.random() < 0.3:
+            ops.append({"op": "copy", "i": regs[0], "variant": rng.choice(["copy", "deepcopy", "squeeze"])})
+            regs = [n] + regs[1:]
+            n += 1
+        w = {"regs": regs, "mode": "w", "overwrite": True, "fault": None, "as_list": len(regs) > 1,
+             "harmless": rng.choice([0, 0, 1, 2, 3])}
+        w["target"], w["tvia"] = rng.choice([("Z", "direct"), ("Z", "alias"), ("Z", "envvar"), ("X", "direct"), ("Y", "scratch")])
+        add(b, ops, w, "gathered", via=rng.choice(["direct", "direct", "alias", "envvar"]))
+    # (h) names that cfdm must expand ($VAR, ${VAR}, ~): overwrite disabled on an existing file, the
+    #     guard for the file the data are in, append, the external file
+    for _ in range(200 * k):
+        ops, n = rand_history(rng, 1, 0.0)
+        kind = rng.random()
+        via = rng.choice(EXPANDED)
+        if kind < 0.45:      # a construct that does not need the file, overwrite disabled
+            tgt = rng.choice(["X", "Y", "E"])
+            w = {"regs": [1 if tgt == "X" else 0], "mode": "w", "overwrite": False, "fault": None, "target": tgt, "tvia": via}
+        elif kind < 0.7:     # the file the data are in
+            w = {"regs": [rng.choice([0, n - 1])], "mode": "w", "overwrite": rng.random() < 0.7, "fault": None,
+                 "target": "X", "tvia": via}
+        elif kind < 0.85:    # append
+            w = {"regs": [rng.randrange(n)], "mode": rng.choice(["a", "r+"]), "overwrite": rng.random() < 0.5,
+                 "fault": None, "target": rng.choice(["X", "Y"]), "tvia": via}
+        else:                # the external file
+            ops.append({"op": "make_external", "i": 1, "j": 0, "new": rng.random() < 0.5, "val": rng.randrange(3)})
+            w = {"regs": [1], "mode": "w", "overwrite": rng.random() < 0.5, "fault": None, "target": "Z",
+                 "tvia": rng.choice(TVIAS[:3] + EXPANDED), "external": {"key": rng.choice(["E", "E", "EN", "X"]), "via": via}}
+        add(base_pair(rng, ["ef1", "ef0"]), ops, w, "expansion",
+            via=rng.choice(["direct", "direct", "envvar", "envvar-braces", "alias"]))
     for i, c in enumerate(cases):
         c["id"] = i
         if c["ops"] and c["ops"][-1]["op"] == "get_domain":
@@ -558,6 +660,13 @@ def oracle(chk, case, r):
                  "the node count / part node count / interior ring variables of a written construct have "
                  "different properties after cfdm.write",
                  {"input": inp, "expected": r["geo"]["before"], "observed": r["geo"]["after"]})
+    if r["others"]["before"] != r["others"]["after"]:
+        bad = True
+        diff = [(a, b) for oa, ob in zip(r["others"]["before"], r["others"]["after"]) for a, b in zip(oa, ob) if a != b]
+        chk.fail("property", "inputs-changed:component-netcdf-names",
+                 "a list / count / index / bounds / interior ring variable of a written construct has another netCDF "
+                 f"variable name or other properties after cfdm.write: kinds {sorted({a[0] for a, _b in diff})}",
+                 {"input": inp, "expected": r["others"]["before"], "observed": r["others"]["after"]})
     if r.get("values_bad"):
         bad = True
         hit = [key for needed in r["needed"] for key in sorted(real_keys(r, needed)) if eff.get(key, 0) != 0]
